@@ -25,10 +25,14 @@ Acceptors(e) == {s \in Steps : e.ty \in Accepts(s) /\ (e.target = "*" \/ e.targe
 
 \* done: <<step, uid>> whose body finished without failing in this run;  carry: the same from the runs before a
 \* serialise/resume (a resumed run re-executes what was in flight, never what had already completed)
+\* ecount: uid -> number of emissions (distinct events may be EQUAL-VALUED: same type, same payload -- they are told apart
+\* by counting);  scount: <<step, uid>> -> number of deliveries (first-attempt executions);  retry: <<step, uid>> -> failed
+\* executions whose retry has not started yet
 St0 == [run |-> 0, emitted |-> {}, started |-> {}, mayretry |-> {}, waitgot |-> {}, unh |-> <<>>, bad |-> "ok",
-        done |-> {}, carry |-> {}, resumed |-> FALSE]
+        done |-> {}, carry |-> {}, resumed |-> FALSE, ecount |-> <<>>, scount |-> <<>>, retry |-> <<>>]
 UnhGet(u, k) == IF k \in DOMAIN u THEN u[k] ELSE 0
 UnhInc(u, k) == [x \in (DOMAIN u) \cup {k} |-> IF x = k THEN UnhGet(u, k) + 1 ELSE u[x]]
+UnhDec(u, k) == [x \in DOMAIN u |-> IF x = k THEN u[x] - 1 ELSE u[x]]
 
 (* emitted events nobody takes: no accepting step and not consumed as a wait result *)
 Orphans(s0, ty, target) == {e \in s0.emitted : e.ty = ty /\ e.target = target /\ Acceptors(e) = {}
@@ -36,21 +40,26 @@ Orphans(s0, ty, target) == {e \in s0.emitted : e.ty = ty /\ e.target = target /\
 
 Apply(s, r) ==
   LET s0 == IF r.run # s.run THEN [St0 EXCEPT !.run = r.run, !.carry = s.carry \cup s.done, !.resumed = s.run # 0] ELSE s IN
-  CASE r.e = "emit" -> [s0 EXCEPT !.emitted = @ \cup {[uid |-> r.uid, ty |-> r.ty, target |-> r.target]}]
+  CASE r.e = "emit" -> [s0 EXCEPT !.emitted = @ \cup {[uid |-> r.uid, ty |-> r.ty, target |-> r.target, ext |-> r.ext]},
+                                   !.ecount = UnhInc(@, r.uid)]
     [] r.e = "step_start" ->
-         LET es == {e \in s0.emitted : e.uid = r.uid} IN
+         LET es == {e \in s0.emitted : e.uid = r.uid}
+             key == <<r.step, r.uid>>
+             isRetry == UnhGet(s0.retry, key) > 0
+             sc == IF isRetry THEN s0.scount ELSE UnhInc(s0.scount, key) IN
          [s0 EXCEPT !.started = @ \cup {<<r.step, r.uid>>}, !.mayretry = @ \ {<<r.step, r.uid>>},
+                    !.scount = sc, !.retry = IF isRetry THEN UnhDec(@, key) ELSE @,
                     !.bad = IF r.ty \notin Accepts(r.step) THEN "delivered_to_non_accepting_step"
                             ELSE IF \E e \in es : e.target # "*" /\ e.target # r.step THEN "delivered_to_other_than_addressed_step"
                             \* a plain step (no collect/wait re-runs) sees an event again only as the retry of its own failure
                             \* (in a resumed run an in-flight producer is re-executed and emits again what an in-flight consumer
                             \*  was also given back: judged only through the carry clause below)
-                            ELSE IF ~s0.resumed /\ Tr.plain[r.step] /\ <<r.step, r.uid>> \in s0.started /\ <<r.step, r.uid>> \notin s0.mayretry
+                            ELSE IF ~s0.resumed /\ Tr.plain[r.step] /\ ~isRetry /\ es # {} /\ UnhGet(sc, key) > UnhGet(s0.ecount, r.uid)
                               THEN "delivered_twice"
                             \* ... unless its producer was itself in flight at the snapshot and emitted it again in this run
                             ELSE IF Tr.plain[r.step] /\ <<r.step, r.uid>> \in s0.carry /\ es = {} THEN "delivered_again_after_resume"
                             ELSE @]
-    [] r.e = "step_end" /\ r.failed -> [s0 EXCEPT !.mayretry = @ \cup {<<r.step, r.uid>>}]
+    [] r.e = "step_end" /\ r.failed -> [s0 EXCEPT !.mayretry = @ \cup {<<r.step, r.uid>>}, !.retry = UnhInc(@, <<r.step, r.uid>>)]
     [] r.e = "step_end" /\ ~r.failed /\ ~r.cancelled -> [s0 EXCEPT !.done = @ \cup {<<r.step, r.uid>>}]
     [] r.e = "wait_ret" -> [s0 EXCEPT !.waitgot = @ \cup {<<r.step, r.got_uid>>},
                                       !.bad = IF <<r.step, r.got_uid>> \in s0.started THEN "wait_result_also_delivered_as_input" ELSE @]
@@ -61,10 +70,20 @@ Apply(s, r) ==
                        !.bad = IF u1[key] > Cardinality(Orphans(s0, r.p.ty, r.p.target)) THEN "unhandled_reported_for_accepted_event_or_twice" ELSE @]
     [] r.e = "drained" /\ r.live_run /\ r.open = 0 ->
          [s0 EXCEPT !.bad =
-            IF \E e \in s0.emitted : \E x \in Acceptors(e) : <<x, e.uid>> \notin s0.started /\ <<x, e.uid>> \notin s0.waitgot
+            IF \E e \in s0.emitted : \E x \in Acceptors(e) :
+                    UnhGet(s0.scount, <<x, e.uid>>) + (IF <<x, e.uid>> \in s0.waitgot THEN 1 ELSE 0) < UnhGet(s0.ecount, e.uid)
+                    /\ ~(s0.resumed /\ <<x, e.uid>> \in s0.started)
               THEN "event_never_delivered_to_accepting_step"
             ELSE IF \E e \in s0.emitted : Acceptors(e) = {} /\ e.ty # "Ask" /\ ~(\E x \in s0.waitgot : x[2] = e.uid)
                                           /\ UnhGet(s0.unh, <<e.ty, e.target>>) < Cardinality(Orphans(s0, e.ty, e.target))
+              THEN "unhandled_event_not_reported"
+            ELSE @]
+    \* the run has ended: what a caller sent while it was live was processed at once (the driver sends at quiescence
+    \* points), so an orphan among those must have been reported by now
+    [] r.e = "drained" /\ ~r.live_run ->
+         [s0 EXCEPT !.bad =
+            IF \E e \in s0.emitted : e.ext /\ Acceptors(e) = {} /\ e.ty # "Ask" /\ ~(\E x \in s0.waitgot : x[2] = e.uid)
+                                      /\ UnhGet(s0.unh, <<e.ty, e.target>>) < Cardinality({o \in Orphans(s0, e.ty, e.target) : o.ext})
               THEN "unhandled_event_not_reported"
             ELSE @]
     [] OTHER -> s0
